@@ -98,6 +98,23 @@ def check(run):
         c["again"] = None
         cases.append(c)
 
+    # the text -> syntax tree step (pest + parse/mod.rs): the parser's tree must be the generator's tree,
+    # which is what the model consumes (hook etk_asm::verif_parse_debug)
+    from checks import c10, c13
+    tree_cases = [c for c in cases if c.get("ref") is not None][:120]
+    extra = [c10.gen_case(rng) for _ in range(25)] + [c13.base_program(rng) for _ in range(5)]
+    treq = [("parse_debug " + c["src"].encode().hex(), c["prog"], c["src"]) for c in tree_cases]
+    treq += [("parse_debug " + layout_src(rng, p).encode().hex(), p, None) for p in extra]
+    tans, rc2, raw2 = common.run_harness([t[0] for t in treq])
+    tree_bad = []
+    for (req, prog, src), a in zip(treq, tans):
+        want = G.prog_debug(prog)
+        got = bytes.fromhex(a[3:]).decode() if a.startswith("ok:") and len(a) > 3 else a
+        if got != want:
+            tree_bad.append(dict(request=req[:2000], parsed=got[:1500], expected=want[:1500]))
+    run.corr["cases"] += len(treq)
+    run.corr["distribution"]["parsed-tree"] = len(treq)
+
     def oracle(c, ans):
         k = answer_kind(ans)
         if k in ("panic", "crash"):
@@ -113,6 +130,9 @@ def check(run):
         return problems
 
     # the 8 identical macro programs must all give the same answer
+    if tree_bad:
+        run.log(f"PARSED TREE DIFFERS ({len(tree_bad)}): {tree_bad[0]['parsed'][:300]!r} vs {tree_bad[0]['expected'][:300]!r}")
+        run.violation_unproved("correspondence: parser's syntax tree vs the generator's tree (text -> AST step)", tree_bad[0])
     rc = asmfam.run_family(run, "C02", cases, oracle,
                            "every mnemonic once; random programs over all zero-operand opcodes and push1..32 with boundary/random values in all radices, labels and definitions interleaved, printed with random indentation, blank lines, comments and `;` separators; each source assembled twice; a macro program with random label suffixes assembled 8 times; distinct = distinct sources",
                            "statement encoding")
